@@ -908,7 +908,7 @@ void NewPage(ShortInt Level, Boolean WithFF) {
 
 void WrLstLine(char const* Line) {
     int    LLength;
-    char   bbuf[2500];
+    char*  bbuf = NULL;
     String LLine;
     int    blen = 0, hlen, z, Start;
 
@@ -924,6 +924,12 @@ void WrLstLine(char const* Line) {
         if ((PageWidth == 0) || ((strlen(Line) << 3) < PageWidth)) {
             LLength = 1;
         } else {
+            /* every character may be a tabulator that becomes up to 8 blanks */
+
+            bbuf = (char*)malloc((strlen(Line) << 3) + 8);
+            if (!bbuf) {
+                return;
+            }
             blen = 0;
             for (z = 0; z < (int)strlen(Line); z++) {
                 if (Line[z] == Char_HT) {
@@ -961,6 +967,9 @@ void WrLstLine(char const* Line) {
                 }
                 Start += hlen;
             }
+        }
+        if (bbuf) {
+            free(bbuf);
         }
     }
 }
